@@ -285,6 +285,9 @@ def generate(repo, pid='C01', extra_imports=(), extra_opens=(), extra=None, skip
     """pid/extra/skip: tools/gen_c02.py re-emits the items IT NEEDS into `Generated.C02` and appends its own"""
     g = Gen(pid, imports=['PrysmVerif.PyPrelude', 'PrysmVerif.Model.C01'] + list(extra_imports),
             opens=['Model.C01'] + list(extra_opens))
+    if pid != 'C01':
+        # items that only C01's own theorems consume (re-emitters C02 / C03 would carry them without an obligation)
+        skip = tuple(skip) + ('mdft.cache_protocol', 'czt.cache_protocol')
     if skip:
         _item = g.item
 
@@ -654,6 +657,127 @@ def generate(repo, pid='C01', extra_imports=(), extra_opens=(), extra=None, skip
     g.item('mdft.cache', 'prysm/fttools.py:MatrixDFTExecutor._key/_setup_bases',
            lambda: get_def(ft, 'MatrixDFTExecutor._setup_bases'), mdft_cache,
            f'def mdftKeyFields : List String := {M}.mdftKeyFieldsRef\ndef mdftBuildReads : List String := {M}.mdftKeyFieldsRef')
+
+    # =========================================================================== dictionaries of the executors (protocol)
+    def cache_proto(cls, gen_name):
+        """which dictionaries `_setup_bases` probes / writes on the miss path, which the entry points index after
+        `_setup_bases(key)`, which `clear()` re-initialises  ->  a `Proto` value (lists sorted, no duplicates)"""
+        def is_empty_dict(v):
+            return (isinstance(v, ast.Dict) and not v.keys) or (isinstance(v, ast.Call) and u(v) == 'dict()')
+
+        def self_attr(n):
+            if isinstance(n, ast.Attribute) and isinstance(n.value, ast.Name) and n.value.id == 'self':
+                return n.attr
+            return None
+
+        def build():
+            c = get_def(ft, cls)
+            meths = {n.name: n for n in c.body if isinstance(n, ast.FunctionDef)}
+            for need in ('__init__', '_setup_bases', 'clear'):
+                if need not in meths:
+                    raise Untranslatable(f'{cls}.{need} not found')
+            stores = [self_attr(st.targets[0]) for st in meths['__init__'].body
+                      if isinstance(st, ast.Assign) and len(st.targets) == 1 and self_attr(st.targets[0]) and is_empty_dict(st.value)]
+            if not stores:
+                raise Untranslatable('no dictionary attribute initialised in __init__')
+
+            def sub_of(n, ctxt):
+                """self.X[<name>] with X a dictionary of the executor -> (X, name)"""
+                if isinstance(n, ast.Subscript) and isinstance(n.ctx, ctxt) and self_attr(n.value) in stores:
+                    if not isinstance(n.slice, ast.Name):
+                        raise Untranslatable(f'dictionary indexed by an expression: {u(n)}')
+                    return self_attr(n.value), n.slice.id
+                return None
+            sb = meths['_setup_bases']
+            kparam = sb.args.args[1].arg
+            body = [st for st in sb.body if not (isinstance(st, ast.Expr) and isinstance(st.value, ast.Constant))]
+            tries = [st for st in body if isinstance(st, ast.Try)]
+            ifs = [st for st in body if isinstance(st, ast.If)
+                   and any(isinstance(x, ast.Compare) and any(isinstance(o, (ast.In, ast.NotIn)) for o in x.ops) for x in ast.walk(st.test))]
+            if len(tries) == 1 and not ifs:
+                t = tries[0]
+                if len(t.handlers) != 1 or u(t.handlers[0].type) != 'KeyError' or t.orelse or t.finalbody:
+                    raise Untranslatable('try statement of _setup_bases is not `try: ... except KeyError: ...`')
+                probe = []
+                for st in t.body:
+                    if not isinstance(st, ast.Expr) or not sub_of(st.value, ast.Load):
+                        raise Untranslatable(f'statement in the probing try body: {u(st)[:60]}')
+                    probe.append(sub_of(st.value, ast.Load))
+                miss_body = t.handlers[0].body
+            elif len(ifs) == 1 and not tries:
+                i_ = ifs[0]
+                tests = i_.test.values if (isinstance(i_.test, ast.BoolOp) and isinstance(i_.test.op, ast.Or)) else [i_.test]
+                probe = []
+                for tt in tests:
+                    if not (isinstance(tt, ast.Compare) and len(tt.ops) == 1 and isinstance(tt.ops[0], ast.NotIn)
+                            and isinstance(tt.left, ast.Name) and self_attr(tt.comparators[0]) in stores):
+                        raise Untranslatable(f'probe test not recognised: {u(i_.test)}')
+                    probe.append((self_attr(tt.comparators[0]), tt.left.id))
+                if i_.orelse:
+                    raise Untranslatable('probe `if` has an else branch')
+                miss_body = i_.body
+            else:
+                raise Untranslatable('_setup_bases has no single probe (try/except KeyError or `if key not in ...`)')
+            if any(k != kparam for _, k in probe):
+                raise Untranslatable('probe does not index by the key parameter')
+            writes = []
+            for st in miss_body:
+                for n in ast.walk(st):
+                    w = sub_of(n, ast.Store)
+                    if w:
+                        # a store nested in a branch / loop of the miss path is conditional: not the protocol of the model
+                        if not (isinstance(st, ast.Assign) and any(t_ is n for t_ in st.targets)):
+                            raise Untranslatable(f'conditional / nested dictionary store: {u(st)[:60]}')
+                        if w[1] != kparam:
+                            raise Untranslatable(f'store under another key: {u(st)[:60]}')
+                        writes.append(w[0])
+            miss_nodes = {id(n) for st in miss_body for n in ast.walk(st)}
+            uses = []
+            for name, f in meths.items():
+                for n in ast.walk(f):
+                    if sub_of(n, ast.Store) and id(n) not in miss_nodes:
+                        raise Untranslatable(f'{name} stores into a dictionary outside the miss path')
+                    if isinstance(n, ast.Delete) and any(self_attr(getattr(t_, 'value', None)) in stores for t_ in n.targets):
+                        raise Untranslatable(f'{name} deletes dictionary entries')
+                    if isinstance(n, ast.Call) and isinstance(n.func, ast.Attribute) and self_attr(n.func.value) in stores \
+                            and n.func.attr in ('pop', 'popitem', 'update', 'setdefault', 'clear') and name != 'clear':
+                        raise Untranslatable(f'{name} mutates a dictionary through .{n.func.attr}()')
+                    if isinstance(n, ast.Assign) and any(self_attr(t_) in stores for t_ in n.targets) and name not in ('__init__', 'clear'):
+                        raise Untranslatable(f'{name} rebinds a dictionary attribute')
+                if name in ('__init__', '_setup_bases', 'clear', 'nbytes', '_key'):
+                    continue
+                loads = [(n.lineno, sub_of(n, ast.Load)) for n in ast.walk(f) if sub_of(n, ast.Load)]
+                if not loads:
+                    continue
+                setups = [(st.lineno, u(st.value.args[0])) for st in f.body if isinstance(st, ast.Expr) and isinstance(st.value, ast.Call)
+                          and u(st.value.func) == 'self._setup_bases' and len(st.value.args) == 1]
+                for ln, (d, k) in loads:
+                    if not any(sl < ln and sk == k for sl, sk in setups):
+                        raise Untranslatable(f'{name} indexes {d}[{k}] without a preceding self._setup_bases({k})')
+                    if len(find_assigns(f, k)) != 1:
+                        raise Untranslatable(f'{name}: key variable {k} assigned more than once')
+                    uses.append(d)
+            resets = []
+            for st in meths['clear'].body:
+                if isinstance(st, ast.Expr) and isinstance(st.value, ast.Constant):
+                    continue
+                if isinstance(st, ast.Assign) and len(st.targets) == 1 and self_attr(st.targets[0]) in stores and is_empty_dict(st.value):
+                    resets.append(self_attr(st.targets[0]))
+                elif isinstance(st, ast.Expr) and isinstance(st.value, ast.Call) and isinstance(st.value.func, ast.Attribute) \
+                        and st.value.func.attr == 'clear' and self_attr(st.value.func.value) in stores and not st.value.args:
+                    resets.append(self_attr(st.value.func.value))
+                else:
+                    raise Untranslatable(f'statement of clear(): {u(st)[:60]}')
+            fmt = lambda xs: lean_list(sorted(set(xs)))
+            return (f'def {gen_name} : Proto := {{ probe := {fmt(d for d, _ in probe)}, missWrites := {fmt(writes)}, '
+                    f'useReads := {fmt(uses)}, clearResets := {fmt(resets)} }}')
+        return build
+    g.item('mdft.cache_protocol', 'prysm/fttools.py:MatrixDFTExecutor.__init__/_setup_bases/clear/entry points',
+           lambda: get_def(ft, 'MatrixDFTExecutor'), cache_proto('MatrixDFTExecutor', 'mdftProtoGen'),
+           f'def mdftProtoGen : Proto := {M}.mdftProtoRef')
+    g.item('czt.cache_protocol', 'prysm/fttools.py:ChirpZTransformExecutor.__init__/_setup_bases/clear/entry points',
+           lambda: get_def(ft, 'ChirpZTransformExecutor'), cache_proto('ChirpZTransformExecutor', 'cztProtoGen'),
+           f'def cztProtoGen : Proto := {M}.cztProtoRef')
 
     def mdft_wiring():
         sb = get_def(ft, 'MatrixDFTExecutor._setup_bases')
